@@ -137,6 +137,7 @@ class Model:
         for m in self.mods.values():
             self.defs[m.name] = self._scan_defs(m)
         self._desugar_getters()
+        self._desugar_format()
         self.classes: Dict[str, Cls] = {}
         self.funcs: Dict[str, Fn] = {}
         for m in self.mods.values():
@@ -296,6 +297,89 @@ class Model:
                 ast.fix_missing_locations(m.tree)
                 changed = True
         return changed
+
+    def _desugar_format(self) -> None:
+        """`"a{}b{}".format(x, y)` (also `{0}`, `{name}`, conversions and plain format specs; also through a local bound once to the
+        bound method, `pair = "{}={}".format; pair(x, y)`) is the f-string f"a{x}b{y}": rewritten at load so that every analysis of a
+        writer reads one spelling of a formatted line.  Templates with attribute / index fields or nested specs are left alone."""
+        import string
+
+        def convert(template: str, args, keywords, at):
+            if any(isinstance(a, ast.Starred) for a in args) or any(k.arg is None for k in keywords):
+                return None
+            kw = {k.arg: k.value for k in keywords}
+            vals: List[ast.AST] = []
+            auto = 0
+            try:
+                parts = list(string.Formatter().parse(template))
+            except ValueError:
+                return None
+            for lit, fld, spec, conv in parts:
+                if lit:
+                    vals.append(ast.Constant(value=lit))
+                if fld is None:
+                    continue
+                if fld == "":
+                    if auto is None:
+                        return None
+                    ix, auto = auto, auto + 1
+                    if ix >= len(args):
+                        return None
+                    v = args[ix]
+                elif fld.isdigit():
+                    auto = None if auto == 0 else auto
+                    if auto not in (None,) or int(fld) >= len(args):
+                        return None
+                    v = args[int(fld)]
+                elif fld.isidentifier() and fld in kw:
+                    v = kw[fld]
+                else:
+                    return None
+                if spec and ("{" in spec or "}" in spec):
+                    return None
+                vals.append(ast.FormattedValue(value=copy_.deepcopy(v), conversion=ord(conv) if conv else -1,
+                                               format_spec=ast.JoinedStr(values=[ast.Constant(value=spec)]) if spec else None))
+            return ast.fix_missing_locations(ast.copy_location(ast.JoinedStr(values=vals), at))
+
+        def is_fmt(e):
+            return isinstance(e, ast.Attribute) and e.attr == "format" and isinstance(e.value, ast.Constant) and isinstance(e.value.value, str)
+
+        class T(ast.NodeTransformer):
+            def __init__(self):
+                self.alias: List[Dict[str, str]] = [{}]
+
+            def visit_FunctionDef(self, n):
+                stores: Dict[str, int] = {}
+                for x in ast.walk(n):
+                    if isinstance(x, ast.Name) and isinstance(x.ctx, (ast.Store, ast.Del)):
+                        stores[x.id] = stores.get(x.id, 0) + 1
+                    elif isinstance(x, ast.arg):
+                        stores[x.arg] = stores.get(x.arg, 0) + 1
+                al = {}
+                for x in ast.walk(n):
+                    if isinstance(x, ast.Assign) and len(x.targets) == 1 and isinstance(x.targets[0], ast.Name) and is_fmt(x.value) and \
+                            stores.get(x.targets[0].id) == 1:
+                        al[x.targets[0].id] = x.value.value.value
+                self.alias.append(al)
+                n = self.generic_visit(n)
+                self.alias.pop()
+                return n
+            visit_AsyncFunctionDef = visit_FunctionDef
+
+            def visit_Call(self, n):
+                n = self.generic_visit(n)
+                tpl = None
+                if is_fmt(n.func):
+                    tpl = n.func.value.value
+                elif isinstance(n.func, ast.Name) and n.func.id in self.alias[-1]:
+                    tpl = self.alias[-1][n.func.id]
+                if tpl is None:
+                    return n
+                r = convert(tpl, n.args, n.keywords, n)
+                return r if r is not None else n
+        for m in self.mods.values():
+            if ".format" in m.src:
+                m.tree = T().visit(m.tree)
 
     def _desugar_getters(self) -> None:
         """operator.attrgetter("a.b") is `lambda o: o.a.b`, operator.itemgetter(k) is `lambda o: o[k]` (one argument each): the
